@@ -17,8 +17,9 @@ def replay(prop_id, path):
     return p.returncode
 
 
-SRCO = {"C01": ("reader",), "C02": ("reader",), "C04": ("reader",), "C05": ("reader",), "C17": ("reader",),
-        "C11": ("sock", "reader"), "C12": ("sock", "reader"), "C07": ("msg",), "C14": ("msg",), "C15": ("msg",), "C19": ("helpers",)}
+SRCO = {"C01": ("reader",), "C02": ("reader",), "C05": ("reader",), "C17": ("reader",),
+        "C11": ("sock", "reader"), "C12": ("sock", "reader"), "C07": ("msg",), "C14": ("msg",), "C15": ("msg",), "C19": ("helpers",),
+        "C03": ("msgdec",), "C04": ("reader", "msgdec"), "C06": ("msgdec",), "C09": ("msgdec",), "C16": ("msgdec",)}
 
 
 def define(pid, propfile, insts, drivers, text, rule, assumptions=(), diag=None, src=False):
